@@ -133,10 +133,17 @@ def run_items(prop: str, items: list[dict], workdir: str, deadline: float | None
     by_stratum: dict[str, list[dict]] = {}
     for it in items:
         by_stratum.setdefault(it["stratum"], []).append(it)
+    per: list[list[list[dict]]] = []
     for _, lst in by_stratum.items():
         size = lst[0].get("chunk", CHUNK)
-        for i in range(0, len(lst), size):
-            chunks.append(lst[i : i + size])
+        per.append([lst[i : i + size] for i in range(0, len(lst), size)])
+    # interleave the strata (proportionally), so that a wall-clock cap truncates every stratum, not the last ones
+    pos = [0] * len(per)
+    total = sum(len(x) for x in per)
+    while len(chunks) < total:
+        j = min((k for k in range(len(per)) if pos[k] < len(per[k])), key=lambda k: (pos[k] / len(per[k]), k))
+        chunks.append(per[j][pos[j]])
+        pos[j] += 1
     results: list[dict] = []
     errors: list[str] = []
     running: list[tuple[subprocess.Popen, str, str, float, int]] = []
